@@ -306,6 +306,59 @@ theorem C06_columnar_operator_tables :
 /-- what a wrong row looks like: `literal <= column` pushed as `column > literal` -/
 example : tablesOk [("reversed", [("LessThanOrEqual", "GreaterThan")])] = false := by decide
 
+/-! ### the operator → index-range tables of `extract_range_predicate` -/
+
+/-- membership of key `k` in the range a table row describes, for bound literal `v` -/
+def rowRange (startSome endSome incS incE : Bool) (v k : Int) : Bool :=
+  (if startSome then (if incS then decide (v ≤ k) else decide (v < k)) else true) &&
+  (if endSome then (if incE then decide (k ≤ v) else decide (k < v)) else true)
+
+/-- `k op v` on integers -/
+def cmpInts : BinOp → Int → Int → Bool
+  | .lt, k, v => decide (k < v) | .le, k, v => decide (k ≤ v)
+  | .gt, k, v => decide (k > v) | .ge, k, v => decide (k ≥ v)
+  | .eq, k, v => decide (k = v) | .ne, k, v => decide (k ≠ v)
+  | _, _, _ => false
+
+/-- the shape a row must have for `column op literal` (flags of an absent bound are free) -/
+def rowShapeOk (op : BinOp) (startSome endSome incS incE : Bool) : Bool :=
+  match op with
+  | .gt => startSome && !endSome && !incS
+  | .ge => startSome && !endSome && incS
+  | .lt => !startSome && endSome && !incE
+  | .le => !startSome && endSome && incE
+  | _ => false
+
+/-- a row of the right shape selects exactly the keys satisfying the comparison — all integers -/
+theorem rowShape_sound (op : BinOp) (s e is ie : Bool) (h : rowShapeOk op s e is ie = true) (v k : Int) :
+    rowRange s e is ie v k = cmpInts op k v := by
+  cases op <;> simp [rowShapeOk] at h <;>
+    (obtain ⟨⟨h1, h2⟩, h3⟩ := h; subst h1; subst h2; subst h3; simp [rowRange, cmpInts]) <;>
+    (try omega)
+
+def rangeTableOk (f : BinOp → BinOp) (t : List (String × Bool × Bool × Bool × Bool)) : Bool :=
+  t.all (fun r => match opOfName r.1 with
+    | some op => rowShapeOk (f op) r.2.1 r.2.2.1 r.2.2.2.1 r.2.2.2.2
+    | none => false)
+
+def rangeTablesOk (ts : List (String × List (String × Bool × Bool × Bool × Bool))) : Bool :=
+  ts.all (fun kt =>
+    if kt.1 == "direct" then rangeTableOk id kt.2
+    else if kt.1 == "reversed" then rangeTableOk mirror kt.2
+    else false)
+
+/-- every operator table of select/scan/index_scan/predicate.rs, as it is in the tree now: a row for
+`column op literal` has the shape whose range is exactly `{k | k op literal}` (`rowShape_sound`), a
+row for `literal op column` the shape of the mirrored comparison (`C06_comparison_mirror`) -/
+theorem C06_index_range_operator_tables :
+    rangeTablesOk Generated.c06IndexRangeTables = true ∧
+    (Generated.c06IndexRangeTables.filter (fun kt => kt.1 == "direct")).length ≥ 1 ∧
+    (Generated.c06IndexRangeTables.filter (fun kt => kt.1 == "reversed")).length ≥ 1 := by
+  decide
+
+/-- what a wrong row looks like: `literal >= column` (column <= literal) given an exclusive end -/
+example : rangeTablesOk [("reversed", [("GreaterThanOrEqual", false, true, false, false)])] = false := by decide
+
 /-- non-vacuity: a table on which a predicate takes all three truth values -/
 example : let p : Nat → TV := fun n => if n = 0 then u else if n % 2 = 0 then t else f
     filter3 p [0, 1, 2, 3] = [2] ∧ filter3 (fun r => not3 (p r)) [0, 1, 2, 3] = [1, 3]
